@@ -109,6 +109,12 @@ def run_engine(run, tier, seed, workdir, idx):
     return {"run": run, "rc": r.returncode, "log": r.stdout[-4000:], "res": res, "wall": time.time() - t0}
 
 
+def alloc_died(vid, raw):
+    """an allocation-limit assertion (vrt.AllocLimit; ids contain 'allocation'): natively the oversized
+    allocation may not be measurable because the runtime refuses it outright"""
+    return "allocation" in vid and ("makeslice:" in raw or "out of memory" in raw or "cannot allocate memory" in raw)
+
+
 def sched_for_replay(events, preemptions):
     """schedule events of an engine path -> (events the native sequencer can enforce, source positions to instrument).
     The engine offers a switch before every sync/atomic operation of /repo code and records each as
@@ -453,7 +459,7 @@ def main():
             for _ in range(tries):
                 evs, raw = native_replay(pkg, [case], tags=run.get("tags"), overlay_positions=sync_pos)
                 ev = evs[0] if evs else []
-                if v["kind"] == "assert" and (("A:%s:0" % vid) in ev or "fatal error:" in raw):
+                if v["kind"] == "assert" and (("A:%s:0" % vid) in ev or "fatal error:" in raw or alloc_died(vid, raw)):
                     break
                 if v["kind"] == "panic" and (any(e.startswith("P:") for e in ev) or "panic:" in raw):
                     break
@@ -464,7 +470,9 @@ def main():
         elif v["kind"] == "assert":
             # the same assertion fails natively - or the real build dies outright on these inputs
             # (e.g. a write through a slice that aliases read-only mmap'd memory)
-            ok = ("A:%s:0" % vid) in ev or "fatal error:" in raw or "unexpected fault address" in raw
+            # (an allocation-limit assertion is also confirmed when the real build cannot even make the
+            # allocation: "makeslice: len/cap out of range", or the runtime running out of memory)
+            ok = ("A:%s:0" % vid) in ev or "fatal error:" in raw or "unexpected fault address" in raw or alloc_died(vid, raw)
         elif v["kind"] == "panic":
             ok = any(e.startswith("P:") for e in ev) or "panic:" in raw
         else:
